@@ -133,3 +133,25 @@ add("C18", "E4 histories", "model_checking",
     "State = canonical listing of every .pyc (plain or tagged name, which checker hash, built for which source version, header fresh?) plus source versions; operations = run(hooked subset, checker in {no hook, None, spy A, spy B}, import order incl. nested imports) and edit(module); every reachable state x every operation is executed as real imports in a purged interpreter until no new state appears; all edges of depth <=2 and every violating history are re-run as real separate interpreters and must agree on state and observation. Oracle per run: each loaded module is instrumented iff hooked in this run, with this run's checker, from the current source.",
     "State abstraction merges stale-header files and abstracts versions to current/old (CPython validates the header before using cached code); subprocesses write bytecode only around the hooked imports with jax masked so nothing is written under the repo.",
     "DESIGN.md §6 C18")
+
+# ---- additions made after the seeded-change waves (appended to the level texts)
+_EXTRA = {
+ "C01": " Also: argument objects mutated between two checks of one call ({arg} axes must use the current value); carrier / array-type / dtype slices (np.ndarray, jax, tf, Any, wrong class, dtype outside the category).",
+ "C04": " Leaf types include variadic axes, unions whose first alternative binds an axis and then fails, and a structured PyTree inside a structure-less one.",
+ "C05": " Prefixes include a failing check followed by a fresh binding before the nested compound; callees include an un-annotated new-style function.",
+ "C06": " Workloads W5 (two context blocks open at once at different stack depths, bound 2 also in quick) and W6 (both threads checking outside any context).",
+ "C07": " Extra part: sequences of decorations of same-named functions over different but identically printing classes (cross-talk), defaults with non-standard == (equal to everything, raising, ndarray, mock.ANY), identity of exceptions raised by the body incl. the library's own classes at nesting depth 1 and 2.",
+ "C08": " Leaf alphabets include equal-valued leaves of different types (1, 1.0, True) and a union of two array annotations whose first alternative binds and fails.",
+ "C09": " Also: dict structures differing only in their keys (processed in one worker), and the same container object mutated in place between two checks of one context.",
+ "C12": " 30 operations incl. a hooked import of a module that does not compile, and a generator / a coroutine left suspended while later activity happens.",
+ "C16": " Every sequence with equal sizes is also run with the SAME array object at several leaf positions; leaf types include tuple[PyTree[Q], Q].",
+ "C17": " Extra families: keyword-only parameters with asymmetric warm-up (one call in one mode, then all modes), parameter names colliding with axis names, isinstance checks made by the body on temporaries, Python scalars / weakly typed values.",
+ "C18": " Operations include runs made with checking disabled, source roll-backs to an OLDER mtime (the state distinguishes stale-older from stale-newer files) and a hooked module that does not compile; a divergence between in-process and separate-process execution is reported as a process-state leak.",
+ "C19": " Extra parts: jaxtyped(typechecker=None), the switch set in one thread and the call made in another, the switch flipped while a decorated call or a context block is on the stack.",
+ "C20": " Loaded copies are re-measured after all later loads of the batch and after a SECOND pickle generation; originals are re-measured after the whole cloudpickle batch.",
+ "C11": " Oracle violations that do not reproduce from a reset world are reported as a process-state leak (with a [polluter ; reset ; history] witness when one is found).",
+ "C13": " Misuse family includes {name} f-string forms; the message parser is tolerant of rewording.",
+ "C03": " User categories include ones derived from built-in categories (checked after their base).",
+}
+for _k, _v in _EXTRA.items():
+    CHECKS[_k]["text"] += _v
